@@ -378,7 +378,7 @@ func (mc *MemoryChannel) copyAofFrom(seg *memorySegment, offset int64, pipew pip
 			continue
 		}
 		if errors.Is(err, io.EOF) {
-			next := mc.nextAofSegment(current.left)
+			next := mc.nextAofSegment(current)
 			if next == nil {
 				return nil
 			}
@@ -391,11 +391,14 @@ func (mc *MemoryChannel) copyAofFrom(seg *memorySegment, offset int64, pipew pip
 	}
 }
 
-func (mc *MemoryChannel) nextAofSegment(left int64) *memorySegment {
+// nextAofSegment returns the successor of seg. seg is matched by identity: after a
+// reset a new history may reuse the same left offset, and a reader still holding a
+// segment of the discarded history must end instead of continuing into the new one.
+func (mc *MemoryChannel) nextAofSegment(seg *memorySegment) *memorySegment {
 	mc.mux.RLock()
 	defer mc.mux.RUnlock()
 	for i := 0; i < len(mc.aofSegs)-1; i++ {
-		if mc.aofSegs[i].left == left {
+		if mc.aofSegs[i] == seg {
 			return mc.aofSegs[i+1]
 		}
 	}
